@@ -49,3 +49,4 @@ func vTapeRewind()
 func vDrawN(i int) uint32
 func vSecret(s string)
 func vSharedWriteText(i int) string
+func vReplayDraws(from int)
